@@ -147,6 +147,8 @@ class TLCResult(object):
         self.records = 0
         self.coverage = {}        # action name -> count (when -coverage)
         self.timed_out = False
+        self.printed = {}         # tag -> list of first integer field of <<"TAG", n, ...>> lines
+        self.printed_lines = []   # raw <<...>> lines (bounded)
 
     def summary(self):
         return dict(cmd=self.cmd, exit=self.exit, generated=self.generated, distinct=self.distinct,
@@ -157,6 +159,7 @@ class TLCResult(object):
 _RE_STATES = re.compile(r'(\d+) states generated, (\d+) distinct states found')
 _RE_INV = re.compile(r'Error: Invariant (\S+) is violated')
 _RE_PROP = re.compile(r'Error: (?:Action|Temporal) propert(?:y|ies) (\S+)?')
+_RE_TUP = re.compile(r'<<"(\w+)", (\d+)')
 _RE_COV = re.compile(r'^<(\w+) line \d+, col \d+ to line \d+, col \d+ of module (\w+)>: (\d+):(\d+)')
 
 
@@ -227,6 +230,13 @@ def run_tlc(main, cfg_text, mc_text=None, workers=1, timeout=900, on_record=None
                     except ValueError:
                         raise MachineryError('unparsable TLC record: %r' % line[:200])
                     on_record(obj)
+                continue
+            if line.startswith('<<"'):
+                mt = _RE_TUP.match(line)
+                if mt:
+                    res.printed.setdefault(mt.group(1), []).append(int(mt.group(2)))
+                if len(res.printed_lines) < 200000:
+                    res.printed_lines.append(line)
                 continue
             tail.append(line)
             m = _RE_STATES.search(line)
@@ -642,3 +652,61 @@ def _compress_runs(runs):
         if r.get('violated') and r['violated'] not in e['violated']:
             e['violated'].append(r['violated'])
     return list(g.values())
+
+
+# ---------------------------------------------------------------------------
+# C->S: validation of implementation traces against a Tier-A acceptor module
+
+_RE_ACC = re.compile(r'<<"ACC", (\d+)>>')
+_RE_AT = re.compile(r'<<"AT", (\d+), (\d+)>>')
+_RE_CL = re.compile(r'<<"CL", (\d+), (\d+), (\[.*\])\s*>>')
+
+
+def validate_traces(ctx, module, traces, what='', chunk=20000, timeout=1200, workers=None, diag=True):
+    """Validate `traces` (list of JSON-able dicts) with the acceptor spec `module`
+    (which reads IOEnv.TRACE_FILE and prints <<"ACC", tid>> for accepted traces).
+    Returns (accepted_flags, diagnostics) where diagnostics maps index -> dict(at=l, clauses=...)
+    for rejected traces."""
+    flags = [False] * len(traces)
+    diags = {}
+    cfg = 'SPECIFICATION Spec\nINVARIANT Accept\nINVARIANT Progress\nINVARIANT DiagClauses\nCHECK_DEADLOCK FALSE\n'
+    for base in range(0, len(traces), chunk):
+        part = traces[base:base + chunk]
+        d = tempfile.mkdtemp(prefix='verif_tr_')
+        try:
+            fn = os.path.join(d, 'traces.json')
+            with open(fn, 'w') as f:
+                json.dump(part, f)
+            res = run_tlc(module, cfg, workers=workers or NPROC, timeout=timeout, env={'TRACE_FILE': fn}, xmx='8g')
+            ctx.add_tlc(res, what or ('trace validation ' + module))
+            if res.exit != 0 or res.error or res.violated:
+                raise MachineryError('trace validation %s failed: exit=%s %s %s\n%s' % (
+                    module, res.exit, res.error, res.violated, res.tail[-2500:]))
+            acc = set(int(x) for x in res.printed.get('ACC', []))
+            for k in range(len(part)):
+                flags[base + k] = (k + 1) in acc
+            rej = [k for k in range(len(part)) if (k + 1) not in acc]
+            if rej and diag:
+                sub = [part[k] for k in rej[:200]]
+                with open(fn, 'w') as f:
+                    json.dump(sub, f)
+                res2 = run_tlc(module, cfg, workers=1, timeout=timeout, env={'TRACE_FILE': fn, 'DIAG': '1'}, xmx='4g')
+                at = {}
+                cl = {}
+                for line in res2.printed_lines:
+                    m = _RE_AT.search(line)
+                    if m:
+                        t, l = int(m.group(1)), int(m.group(2))
+                        at[t] = max(at.get(t, 0), l)
+                    m = _RE_CL.search(line)
+                    if m:
+                        cl[(int(m.group(1)), int(m.group(2)))] = m.group(3)
+                for j, k in enumerate(rej[:200], start=1):
+                    l = at.get(j, 1)
+                    clause_text = cl.get((j, l), '')
+                    failed = re.findall(r'(\w+) \|-> FALSE', clause_text)
+                    diags[base + k] = dict(stuck_at_event=l, failed_clauses=failed,
+                                           event=(part[k]['ev'][l - 1] if 'ev' in part[k] and l - 1 < len(part[k]['ev']) else None))
+        finally:
+            shutil.rmtree(d, ignore_errors=True)
+    return flags, diags
